@@ -33,6 +33,7 @@ type Encoder struct {
 	nameMap    map[string]string
 	refMap     map[unsafe.Pointer]_refElem
 	refNum     int // number of lists, maps and objects written so far, i.e. the ordinal of the next one
+	err        error // first write error of the current WriteObject call
 }
 
 //NewEncoder new
@@ -69,8 +70,26 @@ func (e *Encoder) RegisterNameMap(mp map[string]string) {
 
 //WriteObject write object
 func (e *Encoder) WriteObject(data interface{}) error {
+	e.err = nil
 	_, err := e.WriteData(data)
+	if err == nil {
+		// header, tag and terminator writes do not check their result one by one
+		err = e.err
+	}
 	return err
+}
+
+// write is the only place that writes to the destination: it records the first failure,
+// and a short write without error is a failure too
+func (e *Encoder) write(bs []byte) (int, error) {
+	n, err := e.writer.Write(bs)
+	if err == nil && n < len(bs) {
+		err = io.ErrShortWrite
+	}
+	if err != nil && e.err == nil {
+		e.err = err
+	}
+	return n, err
 }
 
 //WriteTo write object to target writer
@@ -167,15 +186,15 @@ func (e *Encoder) WriteData(data interface{}) (int, error) {
 }
 
 func (e *Encoder) writeString(value string) (int, error) {
-	return e.writer.Write(encodeString(value))
+	return e.write(encodeString(value))
 }
 
 func (e *Encoder) writeInt(value int32) (int, error) {
-	return e.writer.Write(encodeInt(value))
+	return e.write(encodeInt(value))
 }
 
 func (e *Encoder) writeLong(value int64) (int, error) {
-	return e.writer.Write(encodeLong(value))
+	return e.write(encodeLong(value))
 }
 
 func (e *Encoder) writeDouble(value float64) (int, error) {
@@ -183,21 +202,21 @@ func (e *Encoder) writeDouble(value float64) (int, error) {
 	if err != nil {
 		return 0, err
 	}
-	return e.writer.Write(bytes)
+	return e.write(bytes)
 }
 
 func (e *Encoder) writeBoolean(value bool) (int, error) {
-	return e.writer.Write(encodeBoolean(value))
+	return e.write(encodeBoolean(value))
 }
 
 func (e *Encoder) writeBinary(value []byte) (int, error) {
-	return e.writer.Write(encodeBinary(value))
+	return e.write(encodeBinary(value))
 }
 
 func (e *Encoder) writeBT(bs ...byte) (int, error) {
-	return e.writer.Write(bs)
+	return e.write(bs)
 }
 
 func (e *Encoder) writeBytes(bytes []byte) (int, error) {
-	return e.writer.Write(bytes)
+	return e.write(bytes)
 }
